@@ -1,12 +1,21 @@
-/- Drv/C01.lean — driver handler for property C01 (line protocol; core-only imports). -/
+/- Drv/C01.lean — driver handler for property C01 (eager evaluation = textbook value). -/
 import FunsorVerif.Core.Sexp
 import FunsorVerif.Core.XR
+import FunsorVerif.Model.TermParse
 namespace FV.Drv.C01
 open FV
 
-/-- `args` are the top-level S-expressions following the property tag on the request line. -/
+/--
+  C01 denote TERM (("n" size)*) ENV     table of the textbook value over all points of the named inputs
+  C01 fv TERM                           free names of the term (sorted, de-duplicated by the harness)
+-/
 def handle (args : List Sexp) : String :=
   match args with
-  | _ => "err unimplemented"
+  | Sexp.atom "denote" :: rest => (handleDenote rest).getD "err bad-args"
+  | [Sexp.atom "fv", t] =>
+    match parseTerm t with
+    | some t => "ok " ++ toString (Sexp.list (t.fv.map Sexp.str))
+    | none => "err bad-term"
+  | _ => "err bad-request"
 
 end FV.Drv.C01
